@@ -320,9 +320,10 @@ def cli_flags(vec):
 def _gen_cli_pair(rng, seed, tier):
     """the same `polar.py file [file] --goals ...` call with and without the option flags: options have to arrive through
     the argument parser exactly as they do through `settings`"""
-    for _ in range(20):
+    precise = rng.random() < 0.45
+    for _ in range(40):
         program, goals, pid, kind, ast = _program_choice(rng)
-        if "text" in program and not any("*" in g and "**" not in g for g in goals):
+        if "text" in program and not any("*" in g and "**" not in g for g in goals) and (not precise or kind in ("linear", "cubic")):
             break
     files = [program]
     if ast is not None and rng.random() < 0.4:
@@ -333,7 +334,12 @@ def _gen_cli_pair(rng, seed, tier):
     vec = {k: v for k, v in option_vector(rng, bias).items() if not k.startswith("_")}
     if not vec:
         vec = {"cond2arithm": True}
-    if vec.get("numeric_roots") or vec.get("numeric_croots"):
+    if precise and kind in ("linear", "cubic"):
+        # a precision finer than the default has to arrive through the command line as well
+        vec = {"numeric_roots": True, "numeric_eps": rng.choice([1e-16, 1e-20, 1e-30])}
+        if rng.random() < 0.3:
+            vec["numeric_croots"] = True
+    elif vec.get("numeric_roots") or vec.get("numeric_croots"):
         vec["numeric_eps"] = rng.choice([1e-3, 1e-6, 1e-10, 1e-16, 1e-20, 1e-30])
     argv = ["--goals"] + [f"E({g})" for g in goals]
     sess = {"kind": "cli", "pid": "cli:" + pid, "files": files, "argv": argv, "options": {}, "goal_monoms": goals}
